@@ -146,6 +146,91 @@ func (r *run) populatedRoundTrips() {
 	f.fill(reflect.ValueOf(wc).Elem(), "wallet", nil)
 	r.roundTrip("wallet", "populated", wc, wallet.NewCoinCheckPoint(), nil, true)
 	r.txPoolRoundTrip()
+	// the other end: every set and list allocated but EMPTY (a healthy chain
+	// that has not yet seen its first illegal evidence, inactive arbiter, ...).
+	// A set that was usable when saved must be usable when restored: a non-nil
+	// map coming back nil makes the first later insertion panic.
+	for _, k := range []struct {
+		kind        string
+		orig, fresh serializable
+		skip        string
+	}{
+		{"cr", &crstate.Checkpoint{}, &crstate.Checkpoint{}, "cr.committee"},
+		{"dpos", &dstate.CheckPoint{}, &dstate.CheckPoint{}, "dpos.arbitrators"},
+	} {
+		f2 := newFiller(core.NewRng(r.plan.Seed ^ 0xe23c23))
+		f2.fill(reflect.ValueOf(k.orig).Elem(), k.kind, map[string]bool{k.skip: true})
+		emptyCollections(reflect.ValueOf(k.orig).Elem(), k.kind, map[string]bool{k.skip: true}, 0)
+		buf := new(bytes.Buffer)
+		if err := k.orig.Serialize(buf); err != nil {
+			continue
+		}
+		if err := k.fresh.Deserialize(bytes.NewReader(buf.Bytes())); err != nil {
+			r.viol("C23", "roundtrip", "C23/"+k.kind+"/deserialize-error/emptied", "%s emptied: Deserialize of its own serialisation failed: %v", k.kind, err)
+			continue
+		}
+		r.c.Check()
+		for _, p := range nilledMaps(reflect.ValueOf(k.orig).Elem(), reflect.ValueOf(k.fresh).Elem(), k.kind, map[string]bool{k.skip: true}, 0) {
+			r.viol("C23", "roundtrip", "C23/"+k.kind+"/empty-set-restored-as-nil/"+normPath(p), "%s: the empty (allocated) map %s is nil after Serialize+Deserialize: the first insertion after a restore panics", k.kind, p)
+		}
+		r.c.Probe("roundtrip:" + k.kind + ":emptied")
+	}
+}
+
+// emptyCollections replaces every non-nil map by an empty allocated one and
+// truncates every slice to length 0, recursively.
+func emptyCollections(v reflect.Value, path string, skip map[string]bool, depth int) {
+	if depth > 12 || skip[path] {
+		return
+	}
+	switch v.Kind() {
+	case reflect.Ptr:
+		if !v.IsNil() {
+			emptyCollections(v.Elem(), path, skip, depth+1)
+		}
+	case reflect.Struct:
+		for i := 0; i < v.NumField(); i++ {
+			emptyCollections(settable(v.Field(i)), path+"."+lowerFirst(v.Type().Field(i).Name), skip, depth+1)
+		}
+	case reflect.Map:
+		if !v.IsNil() {
+			settable(v).Set(reflect.MakeMap(v.Type()))
+		}
+	case reflect.Slice:
+		if !v.IsNil() && v.Type().Elem().Kind() != reflect.Uint8 {
+			settable(v).Set(reflect.MakeSlice(v.Type(), 0, 0))
+		}
+	}
+}
+
+// nilledMaps lists the maps that are non-nil in a and nil in b.
+func nilledMaps(a, b reflect.Value, path string, skip map[string]bool, depth int) []string {
+	if depth > 12 || skip[path] || a.Kind() != b.Kind() {
+		return nil
+	}
+	var out []string
+	switch a.Kind() {
+	case reflect.Ptr:
+		if !a.IsNil() && !b.IsNil() {
+			out = append(out, nilledMaps(a.Elem(), b.Elem(), path, skip, depth+1)...)
+		}
+	case reflect.Struct:
+		for i := 0; i < a.NumField(); i++ {
+			out = append(out, nilledMaps(a.Field(i), b.Field(i), path+"."+lowerFirst(a.Type().Field(i).Name), skip, depth+1)...)
+		}
+	case reflect.Map:
+		if !a.IsNil() && b.IsNil() {
+			out = append(out, path)
+		}
+	}
+	return out
+}
+
+func lowerFirst(s string) string {
+	if s == "" {
+		return s
+	}
+	return strings.ToLower(s[:1]) + s[1:]
 }
 
 // ---------------------------------------------------------------------------
